@@ -183,7 +183,7 @@ def flipped_spec(lat, u, tree, ns, res, viol):
     return out, ("as-coded" if as_coded else ("other-digit-order" if ok else None))
 
 
-def evaluate(ctx, cases, label, kmax=9, n_random=6, big_F=200, forced=None, big_driver_cap=12):
+def evaluate(ctx, cases, label, kmax=9, n_random=6, big_F=200, forced=None, big_driver_cap=12, exh_cap=10 ** 9):
     res = ctx.res
     t_start = time.time()
     jobs, seen = [], set()
@@ -260,6 +260,7 @@ def evaluate(ctx, cases, label, kmax=9, n_random=6, big_F=200, forced=None, big_
     outs = iter(run_driver_parallel(ctx.exe["c14"], lines))
 
     flip_lines, flip_meta = [], []
+    n_exh_big = 0
     hist = res.extra.setdefault("size_histogram_F", {})
     for idx, ((c, arr, lat, key), (trees, tie, use_driver)) in enumerate(zip(jobs, meta)):
         F, E = lat.n_plaquettes, lat.n_edges
@@ -325,7 +326,9 @@ def evaluate(ctx, cases, label, kmax=9, n_random=6, big_F=200, forced=None, big_
             u = (1 - 2 * rng.integers(0, 2, size=E)).astype(np.int8 if sso else int)
             if forced and forced.get("u") and len(forced["u"]) == E:
                 u = np.array(forced["u"], dtype=int)
-            exhaustive = k <= kmax
+            exhaustive = k <= kmax and (k < 10 or n_exh_big < exh_cap)
+            if exhaustive and k >= 10:
+                n_exh_big += 1
             if exhaustive:
                 ns = list(range(1 << k))
             else:
@@ -404,7 +407,7 @@ def evaluate(ctx, cases, label, kmax=9, n_random=6, big_F=200, forced=None, big_
 
 
 RULE = ("lattice families of DESIGN 1.5 (C01's input space) plus small periodic Voronoi lattices (2..4 seeds quick, ..14 thorough) and their cuts, restricted to lattices without self-loops, "
-        "with >= 1 plaquette and a connected plaquette graph, deduplicated by array hash; both values of shortest_edges_only; random +-1 base bonds (int / int8); every n < 2^(F-1) for F <= 10 (quick) / 14 (thorough), "
+        "with >= 1 plaquette and a connected plaquette graph, deduplicated by array hash; both values of shortest_edges_only; random +-1 base bonds (int / int8); every n < 2^(F-1) for F <= 10 (quick) / 14 (thorough; at most 120 (lattice, setting) pairs with F >= 11), "
         "probes 0, 2^i and random n beyond; non-trivial = lattice with F >= 2 (non-empty tree)")
 
 
@@ -432,7 +435,7 @@ def run(ctx):
     if ctx.tier == "quick":
         evaluate(ctx, cases, "K", kmax=9, n_random=6, big_F=120)
     else:
-        evaluate(ctx, cases, "K", kmax=13, n_random=10, big_F=200, big_driver_cap=60)
+        evaluate(ctx, cases, "K", kmax=13, n_random=10, big_F=200, big_driver_cap=30, exh_cap=120)
 
 
 def search(ctx):
